@@ -38,6 +38,7 @@ def check(run):
         run.guard("C16.4.storing", cfg + "/kind", lambda: rule_kind_table(run, F, cfg))
         run.guard("C16.6.blanket-script-exception", cfg, lambda: rule_blanket_flag(run, F, cfg))
         run.guard("C16.7.label-walk", cfg, lambda: rule_label_walk(run, F, cfg))
+        run.guard("C16.4.storing", cfg + "/hidden-generic", lambda: rule_hidden_generic_table(run, F, cfg))
         run.guard("C16.5.generichide", cfg, lambda: rule_generichide(run, F, cfg))
         b = run.borrow("C08", why="per-hostname cosmetic rules and exceptions must survive serialize/deserialize")
         run.guard("C16.via.C08.3.legacy-bijection", cfg, lambda: _C08.rule_legacy(b, F, cfg))
@@ -390,3 +391,68 @@ def rule_label_walk(run, F, cfg):
                                          r"\(core::str::len\(\$hostname\) SubWithOverflow core::str::len\(\$domain\)\)\.0\)$", hc[0]))
     run.ob("C16.7.label-walk", "hostname-caller", okh,
            f"hostname hashes: get_hashes_from_labels(hostname, hostname.len(), hostname.len() - domain.len()) ({hc})", config=cfg)
+
+
+def rule_hidden_generic_table(run, F, cfg):
+    """hidden_generic_rule as a truth table: a rule that only has negated locations (`~a.com##x`) is also a
+    generic rule, unless it is a scriptlet or carries an action"""
+    from analysis.pathinterp import enumerate_paths, path_value
+    import itertools
+    f = F.fn("filters::cosmetic::CosmeticFilter::hidden_generic_rule")
+    run.touched(f)
+    ATOMS = {"hostnames": "H", "entities": "E", "not_hostnames": "NH", "not_entities": "NE"}
+    rows = []
+    unknown = set()
+    for p in enumerate_paths(f):
+        if p.end != "return":
+            continue
+        a = {}
+        for e, v in p.conds:
+            m = re.match(r"^std::option::Option::is_(some|none)\(arg:self\.(\w+)\)$", e)
+            if m and m.group(2) in ATOMS:
+                a[ATOMS[m.group(2)]] = v if m.group(1) == "some" else 1 - v
+            elif m and m.group(2) == "action":
+                a["A"] = (1 - v) if m.group(1) == "none" else v      # A = action is Some
+            elif re.search(r"contains\(arg:self\.mask, filters::cosmetic::CosmeticFilterMask::SCRIPT_INJECT=\d+\)$", e):
+                a["S"] = v
+            else:
+                unknown.add(e[:100])
+        val = path_value(f, p, 0) or ""
+        rows.append((a, "Some" if val.startswith("std::option::Option::Some") else ("None" if "None" in val else "?")))
+    okp = not unknown and len(rows) >= 4
+    run.ob("C16.4.storing", "hidden-generic:modelled", okp,
+           f"every decision of hidden_generic_rule is over the four location lists, the action and SCRIPT_INJECT "
+           f"(unmodelled: {sorted(unknown)[:3]})", status=None if okp else "UNDISCHARGED", config=cfg)
+    bad = []
+    if okp:
+        for H, E, NH, NE, A, S in itertools.product((0, 1), repeat=6):
+            v = dict(H=H, E=E, NH=NH, NE=NE, A=A, S=S)
+            got = {r for a, r in rows if all(v[k] == x for k, x in a.items())}
+            want = {"Some"} if (not H and not E and (NH or NE) and not A and not S) else {"None"}
+            if got != want:
+                bad.append((v, sorted(got), sorted(want)))
+    run.ob("C16.4.storing", "hidden-generic:table", okp and not bad,
+           "hidden_generic_rule is Some exactly when the rule has no positive location, at least one negated one, no "
+           f"action and is not a scriptlet (64 valuations; differences: {bad[:1]})", site=f.loc(0), config=cfg)
+    # the generic copy drops the negated locations
+    clr = sorted(f.expr_place(st["pl"]).split(".")[-1] for b, i, st in f.statements()
+                 if st["k"] == "assign" and st["pl"]["p"] and f.expr_rvalue(st["rv"]) == "std::option::Option::None{}")
+    run.ob("C16.4.storing", "hidden-generic:clears-negations", clr == ["not_entities", "not_hostnames"],
+           f"the generic copy has not_hostnames / not_entities cleared ({clr})", config=cfg)
+    # generichide flag polarity
+    g = F.fn("blocker::Blocker::check_generic_hide")
+    e = g.expr_local(0)
+    run.ob("C16.5.generichide", "flag-is-some-of-probe",
+           bool(re.match(r"^std::option::Option::is_some\(network_filter_list::NetworkFilterList::check\(arg:self\.generic_hide, ", e)),
+           f"check_generic_hide is generic_hide.check(..).is_some() ({e[:100]})", site=g.loc(0), config=cfg)
+    # entity walk: hostname without its public suffix
+    h = F.fn("filters::cosmetic::get_hostname_without_public_suffix")
+    idx = sorted(h.vexpr_call(t) for b, t in h.calls(r"index$"))
+    want = sorted([
+        "core::str::traits::index($domain, std::ops::RangeFrom::RangeFrom{start: ($index_of_dot AddWithOverflow 1).0})",
+        "core::str::traits::index($hostname, std::ops::Range::Range{start: 0, end: ((core::str::len($hostname) SubWithOverflow core::str::len($public_suffix)).0 SubWithOverflow 1).0})",
+        "core::str::traits::index($hostname, std::ops::RangeFrom::RangeFrom{start: (((core::str::len($hostname) SubWithOverflow core::str::len($domain)).0 AddWithOverflow $index_of_dot).0 AddWithOverflow 1).0})",
+    ])
+    run.ob("C16.7.label-walk", "entity-slices", idx == want,
+           "get_hostname_without_public_suffix: public_suffix = domain[dot+1..]; result = (hostname[0..len - "
+           f"public_suffix.len() - 1], hostname[len - domain.len() + dot + 1..]) (found {idx})", site=h.loc(0), config=cfg)
